@@ -112,4 +112,35 @@ theorem listNode_vc (opn close : Kind) (hopn : CstPrint.isOpenDelim opn = true) 
     rw [x3, t3, x1, t1, hs]
     exact ⟨_, [], _, ti, w, ti3, w3, by simp, rfl, by rw [k1]; exact hopn, rfl, by rw [k3]; exact hclose, Or.inl rfl⟩
 
+/-- the same for any item predicate `Q`: opening token, nothing or `item (, item)* ,?`, closing token -/
+theorem listNode_vc_gen (opn close : Kind) (hro : relab opn = false) (hrc : relab close = false) (Q : List Green → Prop)
+    (mid : Cmd)
+    (hmid : ∀ s, W E c s → Em E c rec (R E c) mid s →
+      (∃ it tail, topCh (exec E rec mid s) = topCh s ++ (it ++ tail) ∧ Q it ∧ SepTail c Q tail) ∨ AtEnd E (exec E rec mid s))
+    (s : St) (hs : topCh s = [])
+    (h : Em E c rec (R E c) (seqs [expect opn, unless_ (.check close) mid, expect close]) s) :
+    ∃ io wo body ic wc, c.kind io = opn ∧ c.kind ic = close ∧
+      topCh (exec E rec (seqs [expect opn, unless_ (.check close) mid, expect close]) s) = .token io wo :: (body ++ [.token ic wc]) ∧
+      (body = [] ∨ ∃ it tail, body = it ++ tail ∧ Q it ∧ SepTail c Q tail) := by
+  have hshow : seqs [expect opn, unless_ (.check close) mid, expect close] =
+      .seq (expect opn) (.seq (.ite (.neg (.check close)) mid .skip) (expect close)) := rfl
+  rw [hshow] at h ⊢
+  simp only [Em] at h
+  obtain ⟨h1, hW1, h2, _, h3⟩ := h
+  obtain ⟨_, x1, ti, w, t1, o1⟩ := em_expect opn s h1
+  have k1 : c.kind ti = opn := o1.eq hro
+  rw [exec_seq, exec_seq]
+  by_cases hcl : evalCond E (exec E rec (expect opn) s) (.neg (.check close)) = true
+  · rw [exec_ite_pos _ _ hcl] at h3 ⊢
+    rw [if_pos hcl] at h2
+    rcases hmid _ hW1 h2 with ⟨wi, tail, e1, hPi, st⟩ | hae
+    · obtain ⟨_, x3, ti3, w3, t3, o3⟩ := em_expect close _ h3
+      refine ⟨ti, w, wi ++ tail, ti3, w3, k1, o3.eq hrc, ?_, Or.inr ⟨wi, tail, rfl, hPi, st⟩⟩
+      rw [x3, t3, e1, x1, t1, hs]; simp
+    · exact (em_expect_atEnd close _ h3 hae).elim
+  · rw [exec_ite_neg _ _ hcl, exec_skip] at h3 ⊢
+    obtain ⟨_, x3, ti3, w3, t3, o3⟩ := em_expect close _ h3
+    refine ⟨ti, w, [], ti3, w3, k1, o3.eq hrc, ?_, Or.inl rfl⟩
+    rw [x3, t3, x1, t1, hs]; simp
+
 end Mimium.Grammar
